@@ -56,7 +56,7 @@ theorem C18_send_never_full {s : St} (h : Reachable s) : s.full = 0 := (reachabl
 /-- a message whose handler was popped is on its way to exactly that caller:
     whoever holds a pending message registered its id -/
 theorem C18_inflight_own {s : St} (h : Reachable s) (k : Nat) (m : Msg) (hb : s.box k = some m) :
-    s.cs k = .registered m.id ∨ s.cs k = .abandoned m.id ∨ s.cs k = .leaked m.id := ((reachable_inv h).box k m hb).1
+    s.cs k = .registered m.id ∨ s.cs k = .abandoned m.id := ((reachable_inv h).box k m hb).1
 
 /-- wrap-around: while an id is pending, a second registration of the same id
     is refused … -/
